@@ -7,7 +7,8 @@
    parse error.  With exact_errors = true it always reads one character and continues with the per-character arm.
 
    This file proves, for ANY queue implementation whose [Qrun] hands out a stop-free prefix that [Qnext] would hand out
-   character by character, any table that passes the decidable conditions [step_ok] / [ok_body] below, html flavour:
+   character by character, any table that passes the decidable conditions [step_ok] / [ok_body] below, either flavour
+   (the SIMD scan, which counts line feeds, is admitted for the html flavour only):
    the two interpreters over the same queue are in a STUTTERING SIMULATION - one fast step that takes a run r is matched
    by |r| slow steps - under a relation that ignores [cur] unless [reconsume] is set, ignores TError tokens, and
    identifies the token lists up to merging of adjacent character tokens ([obs]).  The whole driver (feed with BOM
@@ -82,7 +83,6 @@ Variable c1 : N -> option N.
 Variable sk : sinkcfg.
 Variable seqb : S -> S -> bool.
 Hypothesis seqb_eq : forall a b, seqb a b = true -> a = b.
-Hypothesis Hhtml : f_html fl = true.
 
 Notation M := (mach S Q).
 
@@ -258,9 +258,11 @@ Qed.
 
 Lemma gpc_post_sim c w t (mf ms : M) : Rel w t mf ms -> simP w true (gpc_postF c mf) (gpc_postS c ms).
 Proof.
-  intros H. unfold gpc_post, gpc_decide. rewrite Hhtml. cbv beta iota zeta delta [negb andb].
-  destruct (c =? CR); destruct (_ =? LF); destruct (bad_char _); (split; [reflexivity|]); cbn [snd];
-    apply (Rel_setcur w t); try apply Rel_err_r; repeat (apply Rel_upd; [cg|]); exact H.
+  intros H. unfold gpc_post, gpc_decide. destruct (f_html fl); cbv beta iota zeta delta [negb andb].
+  - destruct (c =? CR); destruct (_ =? LF); destruct (bad_char _); (split; [reflexivity|]); cbn [snd];
+      apply (Rel_setcur w t); try apply Rel_err_r; repeat (apply Rel_upd; [cg|]); exact H.
+  - destruct (c =? CR); destruct (bad_char _); (split; [reflexivity|]); cbn [snd];
+      apply (Rel_setcur w t); try apply Rel_err_r; repeat (apply Rel_upd; [cg|]); exact H.
 Qed.
 
 Lemma gpc_sim c w t (mf ms : M) : Rel w t mf ms -> simG w t (gpcF c mf) (gpcS c ms).
@@ -292,9 +294,17 @@ Proof.
   f_equal. apply (Rel_cur _ _ _ _ H eq_refl). rewrite Erc. apply orb_true_r.
 Qed.
 
+Lemma get_char_snd_sim w t (mf ms : M) : Rel w t mf ms -> Rel w t (snd (get_charF mf)) (snd (get_charS ms)).
+Proof.
+  intros H. unfold get_char. sync H. destruct (reconsume (mc mf)); [apply Rel_rcfalse; exact H|].
+  destruct (Qnext (mq mf)) as [[c q']|]; [|exact H].
+  apply (gpc_sim c w t). apply Rel_took, Rel_setq. exact H.
+Qed.
+
 Lemma discard_char_sim w t (mf ms : M) : Rel w t mf ms -> Rel w t (discard_charF mf) (discard_charS ms).
 Proof.
-  intros H. unfold discard_char. rewrite Hhtml. sync H. destruct (reconsume (mc mf)); [apply Rel_rcfalse; exact H|].
+  intros H. unfold discard_char. destruct (f_html fl); [|apply get_char_snd_sim; exact H].
+  sync H. destruct (reconsume (mc mf)); [apply Rel_rcfalse; exact H|].
   destruct (Qnext (mq mf)) as [[c q']|]; (apply Rel_upd; [cg|]); [apply Rel_took, Rel_setq|]; exact H.
 Qed.
 
@@ -324,21 +334,24 @@ Lemma eat_sim at_eof p e t (mf ms : M) : Rel true t mf ms -> simP true t (eatF a
 Proof.
   intros H. unfold eat. sync H. destruct (ignore_lf (mc mf)); [|apply eat_body_sim; exact H].
   rewrite (peek_sim t mf ms H). destruct (peekQ mf) as [c|].
-  - rewrite Hhtml. apply eat_body_sim. apply Rel_upd; [cg|]. destruct (c =? LF); [apply discard_char_sim|]; exact H.
+  - apply eat_body_sim. apply Rel_upd; [cg|]. destruct (c =? LF); [|exact H].
+    destruct (f_html fl); [apply discard_char_sim; exact H|].
+    destruct (Qnext (mq mf)) as [[d q']|]; [apply Rel_took, Rel_setq|]; exact H.
   - destruct at_eof; [|split; [reflexivity|exact H]]. apply eat_body_sim. apply Rel_upd; [cg|exact H].
 Qed.
 
 Lemma finish_attribute_sim w t (mf ms : M) : Rel w t mf ms -> Rel w t (finish_attributeQ mf) (finish_attributeQ ms).
 Proof.
   intros H. unfold finish_attribute. cbv zeta. sync H. destruct (attr_name (mc mf)); [exact H|].
-  rewrite Hhtml. destruct (existsb _ _).
-  - apply Rel_upd; [cg|apply Rel_err; exact H].
-  - apply Rel_upd; [cg|exact H].
+  destruct (f_html fl).
+  - destruct (existsb _ _); [apply Rel_upd; [cg|apply Rel_err; exact H]|apply Rel_upd; [cg|exact H]].
+  - destruct (existsb _ _); [apply Rel_upd; [cg|apply Rel_err; exact H]|].
+    destruct (qname_split _) as [p l]. apply Rel_upd; [cg|exact H].
 Qed.
 Lemma discard_tag_sim w t (mf ms : M) : Rel w t mf ms -> Rel w t (discard_tagQ mf) (discard_tagQ ms).
-Proof. intros H. unfold discard_tag. rewrite Hhtml. apply Rel_upd; [cg|exact H]. Qed.
+Proof. intros H. unfold discard_tag. destruct (f_html fl); (apply Rel_upd; [cg|exact H]). Qed.
 Lemma emit_char_sim c w t (mf ms : M) : Rel w t mf ms -> Rel w t (emit_charQ c mf) (emit_charQ c ms).
-Proof. intros H. unfold emit_char. rewrite Hhtml. destruct (c =? 0); apply Rel_emit; exact H. Qed.
+Proof. intros H. unfold emit_char. destruct (f_html fl); [destruct (c =? 0)|]; apply Rel_emit; exact H. Qed.
 
 Lemma do_cmd_sim k c run w t (mf ms : M) : Rel w t mf ms -> Rel w t (do_cmdF k c run mf) (do_cmdS k c run ms).
 Proof.
@@ -380,8 +393,35 @@ Definition ect_tail (m1 : M) : M * sres :=
     (upd (fun x => x <| tag_attrs := [] |>)
       (emit (TTag (tag_kind c) (tag_name c) (tag_self c) (tag_attrs c) (tag_dup c))
         (ect_b (tag_kind c) (tag_attrs c) (tag_self c) (tag_name c) (upd (fun x => x <| tag_name := [] |>) m1)))).
-Lemma ect_eq (m : M) : emit_current_tagQ m = ect_tail (finish_attributeQ m).
-Proof. unfold emit_current_tag. rewrite Hhtml. reflexivity. Qed.
+Lemma ect_eq (m : M) : f_html fl = true -> emit_current_tagQ m = ect_tail (finish_attributeQ m).
+Proof. intros Hh. unfold emit_current_tag. rewrite Hh. reflexivity. Qed.
+(* ... and the xml branch *)
+Definition ect_bx (tk : tagkind) (ta : list (str * str)) (m : M) : M :=
+  match tk with
+  | TEndTag | TShortTag => if match ta with [] => false | _ => true end then err m else m
+  | _ => m
+  end.
+Definition ect_dx (tk : tagkind) (name : str) (m : M) : M * sres :=
+  match tk, lookup_resp name (sk_resp sk) with
+  | TEndTag, Some RespScript => (m, SScript)
+  | _, _ => (m, SContinue)
+  end.
+Definition ect_tail_x (m1 : M) : M * sres :=
+  let c := mc m1 in
+  ect_dx (tag_kind c) (tag_name c)
+    (upd (fun x => x <| tag_attrs := [] |>)
+      (emit (TTag (tag_kind c) (tag_name c) false (tag_attrs c) false)
+        (ect_bx (tag_kind c) (tag_attrs c) (upd (fun x => x <| tag_name := [] |>) m1)))).
+Lemma ect_eq_x (m : M) : f_html fl = false -> emit_current_tagQ m = ect_tail_x (finish_attributeQ m).
+Proof. intros Hh. unfold emit_current_tag. rewrite Hh. reflexivity. Qed.
+Lemma ect_bx_sim tk ta w t (mf ms : M) : Rel w t mf ms -> Rel w t (ect_bx tk ta mf) (ect_bx tk ta ms).
+Proof. intros H. unfold ect_bx. destruct tk; try exact H; (destruct ta; [|apply Rel_err]; exact H). Qed.
+Lemma ect_dx_sim tk name w t (mf ms : M) : Rel w t mf ms ->
+  snd (ect_dx tk name mf) = snd (ect_dx tk name ms) /\ Rel w t (fst (ect_dx tk name mf)) (fst (ect_dx tk name ms)).
+Proof.
+  intros H. unfold ect_dx. destruct tk; destruct (lookup_resp name (sk_resp sk)) as [[]|]; cbn [fst snd];
+    (split; [reflexivity|exact H]).
+Qed.
 Lemma ect_b_sim tk ta tself name w t (mf ms : M) : Rel w t mf ms -> Rel w t (ect_b tk ta tself name mf) (ect_b tk ta tself name ms).
 Proof.
   intros H. unfold ect_b. destruct tk; [apply Rel_upd; [cg|exact H]| | |];
@@ -396,11 +436,15 @@ Qed.
 Lemma emit_current_tag_sim w t (mf ms : M) : Rel w t mf ms ->
   snd (emit_current_tagQ mf) = snd (emit_current_tagQ ms) /\ Rel w t (fst (emit_current_tagQ mf)) (fst (emit_current_tagQ ms)).
 Proof.
-  intros H. rewrite !ect_eq.
-  pose proof (finish_attribute_sim w t mf ms H) as H1.
-  set (m1f := finish_attributeQ mf) in *. set (m1s := finish_attributeQ ms) in *.
-  unfold ect_tail. cbv zeta. sync H1.
-  apply ect_d_sim. apply Rel_upd; [cg|]. apply Rel_emit. apply ect_b_sim. apply Rel_upd; [cg|exact H1].
+  intros H. pose proof (finish_attribute_sim w t mf ms H) as H1. destruct (f_html fl) eqn:Hh.
+  - rewrite !(ect_eq _ Hh).
+    set (m1f := finish_attributeQ mf) in *. set (m1s := finish_attributeQ ms) in *.
+    unfold ect_tail. cbv zeta. sync H1.
+    apply ect_d_sim. apply Rel_upd; [cg|]. apply Rel_emit. apply ect_b_sim. apply Rel_upd; [cg|exact H1].
+  - rewrite !(ect_eq_x _ Hh).
+    set (m1f := finish_attributeQ mf) in *. set (m1s := finish_attributeQ ms) in *.
+    unfold ect_tail_x. cbv zeta. sync H1.
+    apply ect_dx_sim. apply Rel_upd; [cg|]. apply Rel_emit. apply ect_bx_sim. apply Rel_upd; [cg|exact H1].
 Qed.
 
 Lemma do_term_sim tm w t (mf ms : M) :
@@ -501,23 +545,23 @@ Lemma unconsume_numeric_sim cr w t (mf ms : M) : Rel w t mf ms -> simP w t (unco
 Proof. intros H. unfold unconsume_numeric. apply simP_intro. apply Rel_err, unconsume_sim. exact H. Qed.
 Lemma finish_named_sim cr e w t (mf ms : M) : Rel w t mf ms -> simP w t (finish_namedQ cr e mf) (finish_namedQ cr e ms).
 Proof.
-  intros H. unfold finish_named. rewrite Hhtml. destruct (cr_match cr) as [[a b]|].
+  intros H. unfold finish_named. destruct (cr_match cr) as [[a b]|].
   - cbv zeta.
-    destruct (if nth (cr_len cr - 1) (cr_buf cr) 0 =? 59 then (false, false)
-              else match cr_attr cr, nth_error (cr_buf cr) (cr_len cr) with
-                   | true, Some c => if c =? 61 then (true, negb true) else if is_alnum c then (true, false) else (false, true)
-                   | _, _ => (false, true)
-                   end) as [unc e0].
+    match goal with |- simP _ _ (let '(unc, e) := ?X in _) _ => destruct X as [unc e0] end.
     destruct unc.
     + apply simP_intro. destruct e0; [apply Rel_err|]; apply unconsume_sim; exact H.
-    + apply simP_intro. apply Rel_upd; [cg|]. destruct e0; [apply Rel_err|]; apply unconsume_sim; exact H.
+    + apply simP_intro. destruct (f_html fl); [apply Rel_upd; [cg|]|]; (destruct e0; [apply Rel_err|]; apply unconsume_sim; exact H).
   - destruct e as [c|].
     + destruct (is_alnum c); [apply simP_intro; exact H|].
       apply simP_intro. destruct ((c =? 59) && _); [apply Rel_err|]; apply unconsume_sim; exact H.
     + apply simP_intro. apply unconsume_sim; exact H.
 Qed.
 Lemma discard_raw_sim w t (mf ms : M) : Rel w t mf ms -> Rel w t (discard_rawF mf) (discard_rawS ms).
-Proof. intros H. unfold discard_raw. rewrite Hhtml. apply discard_char_sim; exact H. Qed.
+Proof.
+  intros H. unfold discard_raw. destruct (f_html fl); [apply discard_char_sim; exact H|].
+  sync H. destruct (reconsume (mc mf)); [apply Rel_rcfalse; exact H|].
+  destruct (Qnext (mq mf)) as [[c q']|]; [apply Rel_took, Rel_setq|]; exact H.
+Qed.
 Lemma cr_read_sim t (mf ms : M) : Rel true t mf ms -> simP true t (cr_readF mf) (cr_readS ms).
 Proof.
   intros H. unfold cr_read. rewrite (peek_sim t mf ms H). destruct (peekQ mf) as [c|]; apply simP_intro; [|exact H].
@@ -526,10 +570,10 @@ Qed.
 
 Lemma cr_step_sim cr t (mf ms : M) : Rel true t mf ms -> simP true t (cr_stepF cr mf) (cr_stepS cr ms).
 Proof.
-  intros H. unfold cr_step. rewrite Hhtml. destruct (cr_st cr).
+  intros H. unfold cr_step. destruct (cr_st cr).
   - rewrite (peek_sim t mf ms H). destruct (peekQ mf) as [c|]; [|apply simP_intro; exact H].
-    destruct (is_alnum c); [apply simP_intro; exact H|].
-    destruct (c =? 35); apply simP_intro; [apply discard_char_sim|]; exact H.
+    repeat match goal with |- context [if ?b then _ else _] => destruct b end;
+      (apply simP_intro; first [exact H|apply discard_char_sim; exact H]).
   - rewrite (peek_sim t mf ms H). destruct (peekQ mf) as [c|]; [|apply simP_intro; exact H].
     destruct ((c =? 120) || (c =? 88)); apply simP_intro; [apply discard_char_sim|]; exact H.
   - rewrite (peek_sim t mf ms H). destruct (peekQ mf) as [c|]; [|apply simP_intro; exact H].
@@ -588,15 +632,17 @@ Proof.
 Qed.
 
 (* ------------------------------------------------------------------ bulk reads: static conditions *)
-(* a bulk state: line breaks and NUL stop the run; the per-character arm treats every character outside the set like the
-   run arm specialised to one character (up to Error commands); the per-character arm is a lock-step body; for the state
-   that uses the SIMD scan the same holds of the scan's stop set, which must be inside the first-character guard, contain
+(* a bulk state: CR and NUL - and, in the html flavour, where get_preprocessed_char counts lines, LF - stop the run; the
+   per-character arm treats every character outside the set like the run arm specialised to one character (up to Error
+   commands); the per-character arm is a lock-step body; a state that uses the SIMD scan (which counts line feeds: html
+   flavour only) satisfies the same for the scan's stop set, which must be inside the first-character guard, contain
    CR and NUL, and the only newline it counts is LF *)
 Definition pop_ok (set : list N) (sm : bool) (krun kchar : body S) : bool :=
-  memb 13 set && memb 10 set && memb 0 set && ok_body true true kchar &&
+  memb 13 set && (negb (f_html fl) || memb 10 set) && memb 0 set && ok_body true true kchar &&
   match per_char krun with
   | Some d => chain_ok seqb set d kchar &&
-              (negb sm || (subset stop guard && list_eqb N.eqb nl [10] && memb 13 stop && memb 0 stop && chain_ok seqb stop d kchar))
+              (negb sm || (f_html fl && subset stop guard && list_eqb N.eqb nl [10] && memb 13 stop && memb 0 stop &&
+                           chain_ok seqb stop d kchar))
   | None => false
   end.
 Definition step_ok (b : body S) : bool :=
@@ -652,7 +698,7 @@ Definition xcmd (xk : bool) : cmd := if xk then Emit CCur else PushValue CCur.
 Lemma doC_cmd xk c run (m : M) : c <> 0 -> do_cmdS (xcmd xk) c run m = doC xk c m.
 Proof.
   intros Hc. destruct xk; cbn [xcmd do_cmd doC ceval]; [|reflexivity].
-  unfold emit_char. rewrite Hhtml. apply N.eqb_neq in Hc. rewrite Hc. reflexivity.
+  unfold emit_char. apply N.eqb_neq in Hc. rewrite Hc. destruct (f_html fl); reflexivity.
 Qed.
 Lemma doC_sim xk c w t (m1 m2 : M) : Rel w t m1 m2 -> Rel w t (doC xk c m1) (doC xk c m2).
 Proof. intros H. destruct xk; cbn [doC]; [apply Rel_emit|apply Rel_upd; [cg|]]; exact H. Qed.
@@ -673,19 +719,20 @@ Lemma mc_setq q (m : M) : mc (m <| mq := q |>) = mc m. Proof. destruct m; reflex
 
 Definition slow1 (c : N) (q1 : Q) (ms : M) : M :=
   upd (fun x => x <| cur := c |>)
-      (if c =? LF then upd (fun x => x <| line ::= N.add 1 |>) (took 1 (ms <| mq := q1 |>)) else took 1 (ms <| mq := q1 |>)).
+      (if f_html fl && (c =? LF) then upd (fun x => x <| line ::= N.add 1 |>) (took 1 (ms <| mq := q1 |>))
+       else took 1 (ms <| mq := q1 |>)).
 Definition pre (s : S) (m : M) : Prop :=
   cref (mc m) = None /\ reconsume (mc m) = false /\ ignore_lf (mc m) = false /\ st (mc m) = s.
 
-Lemma slow_get s c q1 (ms : M) : pre s ms -> Qnext (mq ms) = Some (c, q1) -> c <> CR ->
+Lemma slow_get s c q1 (ms : M) : pre s ms -> Qnext (mq ms) = Some (c, q1) -> c <> CR -> c <> 0 ->
   exists m1, get_charS ms = (Some c, m1) /\ Rel true true m1 (slow1 c q1 ms).
 Proof.
-  intros (Hcr & Hrc & Hil & Hst) Hq Hc. unfold get_char. rewrite Hrc, Hq.
+  intros (Hcr & Hrc & Hil & Hst) Hq Hc H0. unfold get_char. rewrite Hrc, Hq.
   unfold get_preprocessed_char, gpc_skip. rewrite mc_took, mc_setq, Hil.
-  unfold gpc_post, gpc_decide. rewrite Hhtml. apply N.eqb_neq in Hc. rewrite Hc.
-  cbv beta iota zeta delta [negb andb].
-  eexists. split; [reflexivity|]. unfold slow1. apply (Rel_setcur true true).
-  destruct (bad_char c); [apply Rel_err_l|]; apply Rel_refl.
+  unfold gpc_post, gpc_decide, slow1. apply N.eqb_neq in Hc. apply N.eqb_neq in H0. rewrite Hc.
+  destruct (f_html fl); cbv beta iota zeta delta [negb andb]; rewrite ?H0; cbv beta iota;
+    (eexists; split; [reflexivity|]); apply (Rel_setcur true true);
+    (destruct (bad_char c); [apply Rel_err_l|]; apply Rel_refl).
 Qed.
 
 Notation stepF ae := (@step S Q Qemp Qnext Qpeek Qpushf Qflat Qrun fl false tb simd ent c1 sk ae).
@@ -696,7 +743,7 @@ Notation runS ae := (@run S Q Qemp Qnext Qpeek Qpushf Qflat Qrun fl true tb simd
 Lemma pre_doC s xk c q1 (ms : M) : pre s ms -> pre s (doC xk c (slow1 c q1 ms)).
 Proof.
   intros H. destruct ms as [cs qs os ks]. destruct cs. unfold pre, doC, slow1, upd, emit, took in *. cbn in *.
-  destruct xk; destruct (c =? LF); cbn; exact H.
+  destruct xk; destruct (f_html fl); destruct (c =? LF); cbn; exact H.
 Qed.
 
 Lemma slow_step ae s set sm krun kchar xk c q1 (ms : M) :
@@ -705,7 +752,7 @@ Lemma slow_step ae s set sm krun kchar xk c q1 (ms : M) :
   exists ms1, stepS ae ms = (ms1, SContinue) /\ Rel true true ms1 (doC xk c (slow1 c q1 ms)) /\ pre s ms1.
 Proof.
   intros Hb Hpre Hq Hc H0 Hs. pose proof Hpre as (Hcr & Hrc & Hil & Hst).
-  destruct (slow_get s c q1 ms Hpre Hq Hc) as (m1 & G1 & G2).
+  destruct (slow_get s c q1 ms Hpre Hq Hc H0) as (m1 & G1 & G2).
   unfold step. rewrite Hcr, Hst, Hb. cbn [exec]. unfold pop_except_from. cbn [orb]. rewrite G1.
   rewrite exec_resolve.
   destruct (exec_strip ae xk _ Hs c [] true true m1 (slow1 c q1 ms) H0 G2) as [A B].
@@ -715,13 +762,26 @@ Proof.
 Qed.
 
 (* ------------------------------------------------------------------ the fast step on a run, cut into unit runs *)
+(* the lines the slow path counts while it reads the run: line feeds, in the html flavour *)
+Definition inc1 (c : N) : N := if f_html fl && (c =? LF) then 1 else 0.
+Fixpoint cnt (r : list N) : N := match r with [] => 0 | c :: t => inc1 c + cnt t end.
 Definition bulkfx (xk : bool) (r : list N) (q' : Q) (m : M) : M :=
-  doR xk r (took (lenN r) (upd (fun x => x <| line ::= N.add (count_in r [10]) |>) (m <| mq := q' |>))).
+  doR xk r (took (lenN r) (upd (fun x => x <| line ::= N.add (cnt r) |>) (m <| mq := q' |>))).
 
-Lemma count_in_cons c r nl0 : count_in (c :: r) nl0 = count_in [c] nl0 + count_in r nl0.
-Proof. cbn [count_in]. lia. Qed.
-Lemma count1 c : count_in [c] [10] = if c =? LF then 1 else 0.
-Proof. unfold count_in, memb, existsb. change LF with 10. destruct (c =? 10); reflexivity. Qed.
+Lemma cnt_cons c r : cnt (c :: r) = cnt [c] + cnt r.
+Proof. cbn [cnt]. lia. Qed.
+Lemma count1 c : cnt [c] = if f_html fl && (c =? LF) then 1 else 0.
+Proof. cbn [cnt]. unfold inc1. lia. Qed.
+Lemma cnt_html r : f_html fl = true -> cnt r = count_in r [10].
+Proof.
+  intros Hh. induction r as [|c r IH]; [reflexivity|]. cbn [cnt count_in]. rewrite IH. unfold inc1. rewrite Hh.
+  unfold memb, existsb. change LF with 10. destruct (c =? 10); reflexivity.
+Qed.
+Lemma cnt_zero r : Forall (fun c => f_html fl = true -> c <> LF) r -> cnt r = 0.
+Proof.
+  induction 1 as [|c r Hc _ IH]; [reflexivity|]. cbn [cnt]. rewrite IH. unfold inc1.
+  destruct (f_html fl); [|reflexivity]. specialize (Hc eq_refl). apply N.eqb_neq in Hc. rewrite Hc. reflexivity.
+Qed.
 Lemma lenN_cons (c : N) r : lenN (c :: r) = 1 + lenN r.
 Proof. unfold lenN. cbn [length]. lia. Qed.
 
@@ -732,7 +792,7 @@ Proof.
   pose proof (ceq_rc _ _ A) as Hr. rewrite Hrc in Hr.
   destruct vf as [cf qf of kf], ms as [cs qs os ks].
   unfold Rel, doR, doC, slow1, upd, emit, took in *. cbn in *.
-  destruct xk; destruct (c =? LF); cbn; (split; [|split; [reflexivity|split; [rewrite C; reflexivity|split]]]);
+  destruct xk; destruct (f_html fl); destruct (c =? LF); cbn; (split; [|split; [reflexivity|split; [rewrite C; reflexivity|split]]]);
     try (destruct cf, cs; unfold ceq, setcur in *; cbn in *; injection A; intros; subst; reflexivity);
     try (rewrite !obs_cons, D; destruct cf, cs; unfold ceq, setcur in *; cbn in *; injection A; intros; subst; reflexivity);
     try exact D;
@@ -742,8 +802,8 @@ Qed.
 Lemma bulk_cons xk c c2 r q1 q' (vf : M) :
   Rel true true (bulkfx xk (c :: c2 :: r) q' vf) (bulkfx xk (c2 :: r) q' (bulkfx xk [c] q1 vf)).
 Proof.
-  unfold bulkfx. rewrite (count_in_cons c (c2 :: r)), (lenN_cons c (c2 :: r)). change (lenN [c]) with 1.
-  generalize (count_in [c] [10]) as n1. generalize (count_in (c2 :: r) [10]) as n2. generalize (lenN (c2 :: r)) as k2.
+  unfold bulkfx. rewrite (cnt_cons c (c2 :: r)), (lenN_cons c (c2 :: r)). change (lenN [c]) with 1.
+  generalize (cnt [c]) as n1. generalize (cnt (c2 :: r)) as n2. generalize (lenN (c2 :: r)) as k2.
   intros k2 n2 n1. destruct vf as [cf qf of kf]. destruct cf.
   unfold Rel, doR, upd, emit, took, ceq, setcur.
   destruct xk; lazy -[N.add app obs ocons]; (split; [|split; [reflexivity|split; [lia|split]]]).
@@ -787,7 +847,7 @@ Proof.
   - cbn [Qnexts] in Hq. subst q'. exists ms1. split; [cbn; exists ms1; split; [exact S1|reflexivity]|]. split; [exact S3|exact R1].
   - assert (Hq2 : Qnexts (c2 :: r) (mq ms1) q').
     { replace (mq ms1) with q1; [exact Hq|]. destruct S2 as (_ & X & _). rewrite X. destruct ms as [cs qs os ks].
-      unfold doC, slow1, upd, emit, took. destruct xk; destruct (c =? LF); reflexivity. }
+      unfold doC, slow1, upd, emit, took. destruct xk; destruct (f_html fl); destruct (c =? LF); reflexivity. }
     destruct (IH (bulkfx xk [c] q1 vf) ms1 q') as (ms' & T1 & T2 & T3); [discriminate|exact Hg'|exact Hq2|exact S3|exact R1|].
     exists ms'. split; [cbn [length stepsC]; exists ms1; split; [exact S1|exact T1]|]. split; [exact T2|].
     eapply Rel_trans_l; [apply (bulk_cons xk c c2 r q1 q' vf)|exact T3].
@@ -826,12 +886,6 @@ Lemma in_set_memb set c : c <? 64 = true -> memb c set = true -> in_set set c = 
 Proof. intros A B. unfold in_set. rewrite A, B. reflexivity. Qed.
 Lemma upd_line0 (m : M) : upd (fun x => x <| line ::= N.add 0 |>) m = m.
 Proof. destruct m as [cf q o k]. destruct cf. reflexivity. Qed.
-Lemma count_in_nolf r : Forall (fun c => c <> LF) r -> count_in r [10] = 0.
-Proof.
-  induction 1 as [|c r Hc _ IH]; [reflexivity|]. rewrite count_in_cons, IH, count1.
-  apply N.eqb_neq in Hc. rewrite Hc. reflexivity.
-Qed.
-
 Lemma bulk_step ae set sm krun kchar (mf ms : M) :
   Rel true false mf ms -> cref (mc mf) = None -> t_step tb (st (mc mf)) = BPop set sm krun kchar ->
   pop_ok set sm krun kchar = true ->
@@ -866,14 +920,15 @@ Proof.
   - (* the SIMD scan *)
     apply andb_prop in Esm. destruct Esm as [Es Eg]. subst sm. cbn [negb orb] in Hsimd.
     apply andb_prop in Hsimd. destruct Hsimd as [Hsimd Hch2]. apply andb_prop in Hsimd. destruct Hsimd as [Hsimd Hs0].
-    apply andb_prop in Hsimd. destruct Hsimd as [Hsimd Hs13]. apply andb_prop in Hsimd. destruct Hsimd as [Hsub Hnl].
+    apply andb_prop in Hsimd. destruct Hsimd as [Hsimd Hs13]. apply andb_prop in Hsimd. destruct Hsimd as [Hsimd Hnl].
+    apply andb_prop in Hsimd. destruct Hsimd as [Hh Hsub].
     apply list_eqb_N_eq in Hnl.
     destruct (Qrun (fun c => memb c stop) (mq mf)) as [r q'] eqn:ER.
     destruct (run_ok _ _ _ _ ER) as (F1 & F2 & F3).
     assert (Hne : r <> []).
     { intros ->. specialize (F3 eq_refl c0 Ep). cbn beta in F3. rewrite (subset_memb _ _ _ Hsub F3) in Eg. discriminate Eg. }
     rewrite Hkrun. cbn [fst snd].
-    replace (count_in r nl) with (count_in r [10]) by (rewrite Hnl; reflexivity).
+    replace (count_in r nl) with (cnt r) by (rewrite Hnl; apply cnt_html; exact Hh).
     destruct (run_aux ae (st (mc mf)) set true krun kchar xk Hb r mf ms q' Hne) as (ms' & T1 & T2 & T3);
       [|rewrite Hmq; apply F2; exact Hne|exact Hpre|exact H|].
     { apply Forall_forall. intros c Hc. rewrite forallb_forall in F1. specialize (F1 c Hc). cbn beta in F1.
@@ -889,15 +944,15 @@ Proof.
     { apply lock_msteps. rewrite Hstep_s.
       destruct (Qnext (mq mf)) as [[c q1]|]; [destruct (gpcF c _) as [[c'|] m1]|]; exact L. }
     rewrite Hkrun. cbn [fst snd].
-    assert (G : Forall (fun c => good kchar xk c /\ c <> LF) (c :: r)).
+    assert (G : Forall (fun c => good kchar xk c /\ (f_html fl = true -> c <> LF)) (c :: r)).
     { apply Forall_forall. intros x Hx. rewrite forallb_forall in F1. specialize (F1 x Hx). cbn beta in F1.
       apply negb_true_iff in F1. repeat split.
       - intros ->. rewrite (in_set_memb set CR eq_refl H13) in F1. discriminate F1.
       - intros ->. rewrite (in_set_memb set 0 eq_refl H0) in F1. discriminate F1.
       - rewrite <- Ed. apply (chain_ok_resolve seqb seqb_eq set d kchar x Hch F1).
-      - intros ->. rewrite (in_set_memb set LF eq_refl H10) in F1. discriminate F1. }
+      - intros Hh ->. rewrite Hh in H10. cbn [negb orb] in H10. rewrite (in_set_memb set LF eq_refl H10) in F1. discriminate F1. }
     assert (G1 : Forall (good kchar xk) (c :: r)) by (eapply Forall_impl; [|exact G]; cbn beta; tauto).
-    assert (G2 : count_in (c :: r) [10] = 0) by (apply count_in_nolf; eapply Forall_impl; [|exact G]; cbn beta; tauto).
+    assert (G2 : cnt (c :: r) = 0) by (apply cnt_zero; eapply Forall_impl; [|exact G]; cbn beta; tauto).
     destruct (run_aux ae (st (mc mf)) set sm krun kchar xk Hb (c :: r) mf ms q') as (ms' & T1 & T2 & T3);
       [discriminate|exact G1|rewrite Hmq; apply F2; discriminate|exact Hpre|exact H|].
     exists (length (c :: r)), ms'. split; [apply msteps_C; exact T1|].
@@ -1017,13 +1072,17 @@ Qed.
 Lemma eof_loop_sim fuel : forall (mf ms : M), Rel false false mf ms -> snd (eof_loopF fuel mf) <> SPanic 97 ->
   exists ms', (forall j, eof_loopS (fuel + j) ms = (ms', snd (eof_loopF fuel mf))) /\ Rel false false (fst (eof_loopF fuel mf)) ms'.
 Proof.
-  induction fuel as [|f IH]; intros mf ms H Hne; cbn [eof_loop Nat.add] in *; [exfalso; apply Hne; reflexivity|].
+  induction fuel as [|f IH]; intros mf ms H; cbn [eof_loop Nat.add]; [intros Hne; exfalso; apply Hne; reflexivity|].
   sync H.
   destruct (exec_sim true (t_eof tb (st (mc mf))) false false false 0 [] mf ms (Heof _)) as (A & B); [discriminate|exact H|].
   destruct (execF true (t_eof tb (st (mc mf))) 0 [] mf) as [mf1 r]; destruct (execS true (t_eof tb (st (mc mf))) 0 [] ms) as [ms1 r'];
     cbn [fst snd] in *; subst r'.
-  destruct r; try rewrite Hhtml in *; try (exists ms1; split; [intros j; reflexivity|exact B]).
-  apply IH; assumption.
+  destruct r.
+  - apply IH; exact B.
+  - intros _. exists ms1. split; [intros j; reflexivity|exact B].
+  - destruct (f_html fl); [intros _; exists ms1; split; [intros j; reflexivity|exact B]|apply IH; exact B].
+  - destruct (f_html fl); [intros _; exists ms1; split; [intros j; reflexivity|exact B]|apply IH; exact B].
+  - intros _. exists ms1. split; [intros j; reflexivity|exact B].
 Qed.
 
 (* end(): flush a pending character reference, run on the emptied queue, then the EOF arms *)
@@ -1062,28 +1121,56 @@ Lemma end_tail_sim fuel (mf ms : M) : Rel true false mf ms ->
   exists k ms', (forall j, end_tail true (k + j) ms = (ms', snd (end_tail false fuel mf))) /\
                 Rel false false (fst (end_tail false fuel mf)) ms'.
 Proof.
-  intros H. unfold end_tail at 1 2 4 5. rewrite Hhtml.
+  intros H. unfold end_tail at 1 2 4 5.
   pose proof (run_sim true fuel mf ms H) as RS.
   destruct (runF true fuel mf) as [mf3 r3]. cbn [fst snd] in RS.
   assert (W : forall (a b : M), Rel true false a b -> Rel false false a b).
   { intros a b X. eapply Rel_weak; [| |exact X]; [discriminate|auto]. }
-  destruct r3; intros H98 H97.
-  - destruct RS as (k & ms3 & A & B); [discriminate|]. exists k, ms3. split; [|apply W; exact B].
-    intros j. unfold end_tail. rewrite (A j), Hhtml. reflexivity.
+  assert (Done : forall k ms3 r, (forall j, runS true (k + j) ms = (ms3, r3)) -> Rel true false mf3 ms3 ->
+            (forall fu, match r3 with
+                        | SSuspend => match Qpeek (mq ms3) with
+                                      | None => eof_loopS fu ms3
+                                      | Some _ => if f_html fl then (ms3, SPanic 5) else eof_loopS fu ms3 end
+                        | SPanic n => (ms3, SPanic n)
+                        | _ => if f_html fl then (ms3, SPanic 4) else eof_loopS fu ms3 end = (ms3, r)) ->
+            exists k0 ms', (forall j, end_tail true (k0 + j) ms = (ms', r)) /\ Rel false false mf3 ms').
+  { intros k ms3 r A B E. exists k, ms3. split; [|apply W; exact B]. intros j. unfold end_tail. rewrite (A j). apply E. }
+  assert (Loop : forall k ms3, (forall j, runS true (k + j) ms = (ms3, r3)) -> Rel true false mf3 ms3 ->
+            snd (eof_loopF fuel mf3) <> SPanic 97 ->
+            (forall fu, match r3 with
+                        | SSuspend => match Qpeek (mq ms3) with
+                                      | None => eof_loopS fu ms3
+                                      | Some _ => if f_html fl then (ms3, SPanic 5) else eof_loopS fu ms3 end
+                        | SPanic n => (ms3, SPanic n)
+                        | _ => if f_html fl then (ms3, SPanic 4) else eof_loopS fu ms3 end = eof_loopS fu ms3) ->
+            exists k0 ms', (forall j, end_tail true (k0 + j) ms = (ms', snd (eof_loopF fuel mf3))) /\
+                           Rel false false (fst (eof_loopF fuel mf3)) ms').
+  { intros k ms3 A B H97 E. destruct (eof_loop_sim fuel mf3 ms3 (W _ _ B) H97) as (ms' & C & D).
+    exists (k + fuel)%nat, ms'. split; [|exact D]. intros j. unfold end_tail.
+    rewrite <- Nat.add_assoc, (A (fuel + j)%nat), E.
+    replace (k + (fuel + j))%nat with (fuel + (k + j))%nat by lia. exact (C (k + j)%nat). }
+  destruct r3.
   - destruct RS as (k & ms3 & A & B); [discriminate|].
-    pose proof (Rel_mq _ _ _ _ B) as Hq.
-    destruct (Qpeek (mq mf3)) as [c|] eqn:Ep.
-    + exists k, ms3. split; [|apply W; exact B]. intros j. unfold end_tail. rewrite (A j), Hq, Ep, Hhtml. reflexivity.
-    + destruct (eof_loop_sim fuel mf3 ms3 (W _ _ B) H97) as (ms' & C & D).
-      exists (k + fuel)%nat, ms'. split; [|exact D]. intros j. unfold end_tail.
-      rewrite <- Nat.add_assoc, (A (fuel + j)%nat), Hq, Ep.
-      replace (k + (fuel + j))%nat with (fuel + (k + j))%nat by lia. exact (C (k + j)%nat).
-  - destruct RS as (k & ms3 & A & B); [discriminate|]. exists k, ms3. split; [|apply W; exact B].
-    intros j. unfold end_tail. rewrite (A j), Hhtml. reflexivity.
-  - destruct RS as (k & ms3 & A & B); [discriminate|]. exists k, ms3. split; [|apply W; exact B].
-    intros j. unfold end_tail. rewrite (A j), Hhtml. reflexivity.
-  - destruct RS as (k & ms3 & A & B); [exact H98|]. exists k, ms3. split; [|apply W; exact B].
-    intros j. unfold end_tail. rewrite (A j). reflexivity.
+    destruct (f_html fl) eqn:Hh; intros H98 H97.
+    + apply (Done k ms3 _ A B). intros fu. reflexivity.
+    + apply (Loop k ms3 A B H97). intros fu. reflexivity.
+  - destruct RS as (k & ms3 & A & B); [discriminate|].
+    pose proof (Rel_mq _ _ _ _ B) as Hq. rewrite <- Hq.
+    destruct (Qpeek (mq ms3)) as [c|] eqn:Ep.
+    + destruct (f_html fl) eqn:Hh; intros H98 H97.
+      * apply (Done k ms3 _ A B). intros fu. rewrite Ep. reflexivity.
+      * apply (Loop k ms3 A B H97). intros fu. rewrite Ep. reflexivity.
+    + intros H98 H97. apply (Loop k ms3 A B H97). intros fu. rewrite Ep. reflexivity.
+  - destruct RS as (k & ms3 & A & B); [discriminate|].
+    destruct (f_html fl) eqn:Hh; intros H98 H97.
+    + apply (Done k ms3 _ A B). intros fu. reflexivity.
+    + apply (Loop k ms3 A B H97). intros fu. reflexivity.
+  - destruct RS as (k & ms3 & A & B); [discriminate|].
+    destruct (f_html fl) eqn:Hh; intros H98 H97.
+    + apply (Done k ms3 _ A B). intros fu. reflexivity.
+    + apply (Loop k ms3 A B H97). intros fu. reflexivity.
+  - intros H98 H97. destruct RS as (k & ms3 & A & B); [exact H98|].
+    apply (Done k ms3 _ A B). intros fu. reflexivity.
 Qed.
 
 Lemma tok_end_sim fuel (mf ms : M) : Rel true false mf ms ->
@@ -1216,8 +1303,7 @@ Variable c1 : N -> option N.
 Variable sk : sinkcfg.
 Variable seqb : S -> S -> bool.
 Hypothesis seqb_eq : forall a b, seqb a b = true -> a = b.
-Hypothesis Hhtml : f_html fl = true.
-Hypothesis Hstep : forall s, step_ok guard stop nl seqb (t_step tb s) = true.
+Hypothesis Hstep : forall s, step_ok fl guard stop nl seqb (t_step tb s) = true.
 Hypothesis Heof : forall s, ok_body false false (t_eof tb s) = true.
 
 Definition regular (log : list sres) : Prop := ~ In (SPanic 98) log /\ ~ In (SPanic 97) log.
@@ -1233,7 +1319,7 @@ Theorem bulk_flat_obs fuel inject chunks (m : mach S (list N)) log :
 Proof.
   intros rf [H98 H97].
   exact (bulk_drive_obs [] fq_next fq_peek (@app N) (@app N) (fun q => q) fq_run1 flat_peek_next flat_run_ok
-           fl tb guard stop nl ent c1 sk seqb seqb_eq Hhtml Hstep Heof fuel inject chunks m log H98 H97).
+           fl tb guard stop nl ent c1 sk seqb seqb_eq Hstep Heof fuel inject chunks m log H98 H97).
 Qed.
 
 (* the chunked queue: runs up to the end of the first buffer, SIMD branch included *)
@@ -1247,7 +1333,7 @@ Theorem bulk_chunked_obs fuel inject chunks (m : mach S queue) log :
 Proof.
   intros rf [H98 H97].
   exact (bulk_drive_obs [] qnext qpeek qpush_front qpush_back qflat qrun_chunked chunked_peek_next chunked_run_ok
-           fl tb guard stop nl ent c1 sk seqb seqb_eq Hhtml Hstep Heof fuel inject chunks m log H98 H97).
+           fl tb guard stop nl ent c1 sk seqb seqb_eq Hstep Heof fuel inject chunks m log H98 H97).
 Qed.
 
 (* ... and against the reference semantics (flat queue, unit reads, exact mode) through TokIR/QueueSim.v *)
